@@ -100,6 +100,17 @@ func newReadWriteSegment(basePath string, baseOffset int64, segmentSize uint32, 
 		ms.currentFileOffset, ms.c.baseOffset, commitOffset); err != nil {
 		return nil, errors.Wrapf(err, "failed to rebuild index for segment file %s", ms.c.txnPath)
 	}
+
+	// Whatever follows the recovered entries is not part of the log (e.g. a damaged
+	// uncommitted tail that was discarded). Wipe it, or the records behind a discarded
+	// one would be taken for log entries again once it has been overwritten.
+	tail := ms.txnMappedFile[ms.currentFileOffset:]
+	for i := range tail {
+		if tail[i] != 0 {
+			clear(tail[i:])
+			break
+		}
+	}
 	return ms, nil
 }
 
